@@ -73,3 +73,14 @@ func Raise(sig os.Signal, idx int) int {
 
 // Registrations reports how many Notify calls are active.
 func Registrations() int { mu.Lock(); defer mu.Unlock(); return len(regs) }
+
+// Pending reports how many signals are queued (sent, not yet received).
+func Pending() int {
+	mu.Lock()
+	defer mu.Unlock()
+	n := 0
+	for _, r := range regs {
+		n += len(r.c)
+	}
+	return n
+}
